@@ -84,7 +84,14 @@ def hRaw : Handler := fun r =>
         let (dl, db) := digests cut.reverse
         s!"ok n={bs.length} q={seqs.length} segs={segs.length} l={hexN 16 dl.toNat} d={hexN 16 db.toNat}"
     | .kf => "-"
-    | .prop => "n/a"
+    | .prop =>
+      -- a failure of the reader that `io.ReadFull` hands to the raw decoder must be the error `Decode` returns
+      if cleanB a.frag.schedule then "n/a" else
+      match firstFullErr prog a.frag.schedule with
+      | none => "n/a"
+      | some e =>
+        let status := ((r.impl.splitOn " ").filter (· ≠ "")).headD ""
+        if status == "err:" ++ Drv.RBuf.errName e then "ok" else s!"fail:reader-error-{Drv.RBuf.errName e}-not-returned"
 
 /-! ### `rawdec`: the two decoders side by side -/
 
